@@ -1,6 +1,7 @@
 package prog
 
 import (
+	"errors"
 	"context"
 	"fmt"
 	"reflect"
@@ -45,6 +46,11 @@ func NewHost() *Host {
 		h.mu.Lock()
 		h.Trace = append(h.Trace, "pfail "+RenderGo(id))
 		h.mu.Unlock()
+		if n, ok := id.(int64); ok && n%2 == 1 {
+			// a Go function may panic with an error value as well as with a text: the script sees the same
+			// message, the interpreter holds another kind of error
+			panic(errors.New("pfail"))
+		}
 		panic("pfail")
 	})
 	list := func(xs ...interface{}) interface{} { return append([]interface{}{}, xs...) }
